@@ -207,11 +207,18 @@ def rule_pair(ctx):
                 notified = True
                 verdict["found"] = True
                 # guard: some earlier branch tested presence of the user truthy
-                pres = any(b[0] == "branch" and b[2] and is_done(expand(p, b[1], u), uconn, userf) for b in ev[:ev.index(e)])
+                login_f = field_names(p)["login_required"]
+                pres = any(b[0] == "branch" and b[2] and (is_done(expand(p, b[1], u), uconn, userf)) for b in ev[:ev.index(e)])
                 if not pres:
                     verdict["guard"] = False
                 call = next(c for c in walk_self(n) if isinstance(c, ast.Call) and is_method_call(c, "notify_logout"))
-                if not (len(call.args) == 1 and src(call.args[0]) == f"{uconn}.{userf}"):
+                arg = call.args[0] if len(call.args) == 1 else None
+                if isinstance(arg, ast.Name):   # a local holding the session user on this path: its last assignment before the call
+                    for b in reversed(ev[:ev.index(e)]):
+                        if b[0] == "stmt" and isinstance(b[1], ast.Assign) and any(isinstance(t, ast.Name) and t.id == arg.id for t in b[1].targets):
+                            arg = b[1].value
+                            break
+                if not (arg is not None and src(arg) == f"{uconn}.{userf}"):
                     verdict["guard"] = False
                 for a in [x for x in walk_self(n) if isinstance(x, ast.Await)]:
                     if may_suspend_await(p, a, u):
@@ -220,6 +227,9 @@ def rule_pair(ctx):
             if notified:
                 if isinstance(n, ast.Delete) and any(isinstance(t, ast.Attribute) and t.attr == userf and isinstance(t.value, ast.Name) and t.value.id == uconn for t in n.targets):
                     notified = False
+                    continue
+                if isinstance(n, ast.Assign) and any(isinstance(t, ast.Attribute) and t.attr == userf and isinstance(t.value, ast.Name) and t.value.id == uconn for t in n.targets):
+                    notified = False   # overwritten by the new user: the released one is forgotten just the same
                     continue
                 if may_suspend_node(p, n, u):
                     verdict["susp"] = False
@@ -256,7 +266,7 @@ def rule_pair(ctx):
     # session constructor starts with the flag False
     ctor = p.session_ctor()
     for f_ in g_flags:
-        kv = {k.arg: k.value for k in ctor.keywords}
+        kv = session_kwargs(p)
         ok = f_ in kv and isinstance(kv[f_], ast.Constant) and kv[f_].value is False
         ctx.ob("C10.PAIR", ctor, f"the session starts with `{f_}`=False", ok, f"the session does not start with the ownership flag `{f_}` False", construct=f"ctor:{f_}")
 
